@@ -5,6 +5,15 @@
 //!   \x1eE <ErrorKind>          the evaluation returned an error, or
 //!   \x1eP <message>            the engine panicked.
 //! Environment: the usual STEEL_* switches are read by the engine itself (used by C02).
+//!
+//! `--bc`: bytecode mode.  A program may consist of several compilation units separated by a line `;;;---`
+//! (one engine per program, the units are compiled and run one after the other, like REPL inputs).  Per unit:
+//!   \x1eU
+//!   the listing of every top-level expression of the unit, exactly what `Engine::debug_build_strings` returns
+//!   (index, op code, payload, text of the constant / name), each listing followed by a line `----`
+//!   \x1eX                      (end of the listings; the unit runs now, its output follows)
+//!   \x1eR ok v1\x1fv2…  |  \x1eR err <ErrorKind> | <first line>  |  \x1eR panic <message>
+//! and after the last unit (or the first failing one) the usual \x1eV / \x1eE / \x1eP line for the whole program.
 use std::io::{Read, Write};
 use std::panic::{catch_unwind, AssertUnwindSafe};
 
@@ -20,6 +29,16 @@ fn main() {
     let mod_dir = format!("/verif/.build/C01/mods/{}", std::process::id());
     if as_module {
         let _ = std::fs::create_dir_all(&mod_dir);
+    }
+    let bc = std::env::args().any(|a| a == "--bc");
+    if bc {
+        for prog in src.split("\n;;;===\n") {
+            if prog.trim().is_empty() {
+                continue;
+            }
+            run_bc(prog);
+        }
+        return;
     }
     let mut counter = 0usize;
     let mut shared = if reuse { Some(steel::steel_vm::engine::Engine::new()) } else { None };
@@ -68,4 +87,99 @@ fn main() {
     if as_module {
         let _ = std::fs::remove_dir_all(&mod_dir);
     }
+}
+
+/// Names of the built-in procedures whose global slots the model VM needs to know (a superset is harmless).
+const MODELLED_PRIMS: &[&str] = &[
+    "+", "-", "*", "<", "<=", "=", ">", ">=", "car", "cdr", "cons", "list", "null?", "not", "length", "pair?",
+    "list?", "eq?", "equal?", "zero?", "void", "empty?", "first", "rest", "append", "reverse",
+];
+
+fn panic_msg(p: Box<dyn std::any::Any + Send>) -> String {
+    let msg = if let Some(s) = p.downcast_ref::<String>() {
+        s.clone()
+    } else if let Some(s) = p.downcast_ref::<&str>() {
+        s.to_string()
+    } else {
+        "?".into()
+    };
+    msg.lines().next().unwrap_or("").to_string()
+}
+
+fn err_line(e: &steel::SteelErr) -> String {
+    let msg = format!("{}", e);
+    let first = msg.lines().next().unwrap_or("").to_string();
+    let kind = first.trim_start_matches("Error: ").split(':').next().unwrap_or("").to_string();
+    format!("{} | {}", kind, first)
+}
+
+/// Bytecode mode: listing of every unit (what the VM is about to execute) + the result of running it.
+fn run_bc(prog: &str) {
+    println!("\u{1e}B");
+    let mut engine = steel::steel_vm::engine::Engine::new();
+    let mut all: Vec<String> = Vec::new();
+    {
+        // slots of the primitives the model knows (first registration = the built-in)
+        let g = engine.globals();
+        println!("\u{1e}K #builtins {}", g.len());
+        for name in MODELLED_PRIMS {
+            if let Some(i) = g.iter().position(|x| x.resolve() == *name) {
+                println!("\u{1e}K {} {}", name, i);
+            }
+        }
+    }
+    for unit in prog.split("\n;;;---\n") {
+        if unit.trim().is_empty() {
+            continue;
+        }
+        println!("\u{1e}U");
+        let base = engine.globals().len();
+        let unit = unit.to_string();
+        let r = catch_unwind(AssertUnwindSafe(|| {
+            let p = match engine.emit_raw_program_no_path(unit) {
+                Ok(p) => p,
+                Err(e) => {
+                    println!("\u{1e}X");
+                    return Err(e);
+                }
+            };
+            match engine.debug_build_strings(p.clone()) {
+                Ok(v) => {
+                    for s in v {
+                        println!("{}\n----", s.trim_end_matches('\n'));
+                    }
+                }
+                Err(e) => println!("=> listing failed: {}", err_line(&e)),
+            }
+            println!("\u{1e}X");
+            std::io::stdout().flush().ok();
+            engine.run_raw_program(p)
+        }));
+        std::io::stdout().flush().ok();
+        {
+            // symbol-table rows added by this unit (listing clone + real build): provisional slot -> real slot
+            let g = engine.globals();
+            let names: Vec<String> = g.iter().skip(base).map(|x| x.resolve().to_string()).collect();
+            println!("\n\u{1e}G {}\u{1f}{}", base, names.join("\u{1f}"));
+        }
+        match r {
+            Ok(Ok(vals)) => {
+                let s: Vec<String> = vals.iter().map(|v| format!("{}", v)).collect();
+                println!("\u{1e}R ok {}", s.join("\u{1f}"));
+                all.extend(s);
+            }
+            Ok(Err(e)) => {
+                println!("\n\u{1e}R err {}", err_line(&e));
+                println!("\u{1e}E {}", err_line(&e));
+                return;
+            }
+            Err(p) => {
+                let m = panic_msg(p);
+                println!("\n\u{1e}R panic {}", m);
+                println!("\u{1e}P {}", m);
+                return;
+            }
+        }
+    }
+    println!("\u{1e}V {}", all.join("\u{1f}"));
 }
